@@ -59,7 +59,7 @@ func cmdRun(args []string) {
 	params := fs.String("params", "", "comma separated int parameters")
 	unwind := fs.Int("unwind", 64, "loop unwinding bound")
 	maxPaths := fs.Int("maxpaths", 20000, "path budget")
-	solver := fs.String("solver", "z3", "z3 | z3-new | cvc5")
+	solver := fs.String("solver", defaultSolver(), "z3 | z3-new | cvc5")
 	verbose := fs.Bool("v", false, "verbose")
 	goOrder := fs.Int("goorder", 0, "errgroup order")
 	flags := fs.String("flags", "", "comma separated harness flags")
@@ -101,4 +101,11 @@ func cmdRun(args []string) {
 			fmt.Printf("  %6d %s\n", res.Stubs[k], k)
 		}
 	}
+}
+
+func defaultSolver() string {
+	if s := os.Getenv("GOSYM_SOLVER"); s != "" {
+		return s
+	}
+	return "z3-new"
 }
